@@ -7,7 +7,7 @@
 (* at compile time) is printed and compared by the harness with what the   *)
 (* real compiler did with the same description.                            *)
 (***************************************************************************)
-EXTENDS CoSem, Json, IOUtils, TLCExt
+EXTENDS CoAccept, Json, IOUtils, TLCExt
 
 Obs == JsonDeserialize(IOEnv.OBS_FILE)
 N == Len(Obs.designs)
@@ -23,7 +23,9 @@ VerdictOf(p) ==
       s0 == SpecInit(E, D)
       a == SpecStep(E, D, s0, Inputs(p, 0), Dn(p).clk)
       b == SpecStep(E, D, s0, Inputs(p, 1), Dn(p).clk)
-  IN IF a.err # "" /\ a.err # "undefined" THEN a.err ELSE IF b.err = "undefined" THEN "" ELSE b.err
+      static == AcceptVerdict(E)
+  IN IF static # "" THEN static
+     ELSE IF a.err # "" /\ a.err # "undefined" THEN a.err ELSE IF b.err = "undefined" THEN "" ELSE b.err
 
 ASSUME \A p \in 1..N : PrintT(<<"CASE", Dn(p).id, VerdictOf(p)>>)
 
